@@ -102,6 +102,8 @@ def _extra_configs(tier):
         out.append({'block': 'TwinSharedWire', 'kind': 'Reg', 'w': 1, 'first': first})
     for aw, dw in ([(1, 1), (1, 2), (2, 1), (2, 2)] if T else [(1, 1), (1, 2), (2, 1)]):
         out.append({'block': 'AsynchronousMemory', 'aw': aw, 'dw': dw})
+    out.append({'block': 'AsynchronousMemory', 'aw': 1, 'dw': 2, 'rw': 1})     # read port narrower / wider than the cells
+    out.append({'block': 'AsynchronousMemory', 'aw': 1, 'dw': 1, 'rw': 2})
     out.append({'block': 'AutoReset'})
     out.append({'block': 'ClockSyncFSM'})
     for msg in ('Hi', 'abc', 'hello', 'sevench', 'Z'):
@@ -213,7 +215,7 @@ def _build_extra(d):
         P.Reg(hw, 'g0', a, O('r2', w))
     elif b == 'AsynchronousMemory':
         aw, dw = d['aw'], d['dw']
-        P.AsynchronousMemory(hw, 'dut', I('read_address', aw), I('write_address', aw), I('write'), O('readdata', dw), I('writedata', dw))
+        P.AsynchronousMemory(hw, 'dut', I('read_address', aw), I('write_address', aw), I('write'), O('readdata', d.get('rw', dw)), I('writedata', dw))
     elif b == 'AutoReset':
         P.AutoReset(hw, 'dut', O('reset'))
     elif b == 'ClockSyncFSM':
